@@ -748,6 +748,10 @@ func c04Run(rc *core.RunCtx) {
 	if rc.Expired() || rc.Done() {
 		return
 	}
+	c.slotsPart()
+	if rc.Expired() || rc.Done() {
+		return
+	}
 	c.nativeParsePart()
 }
 
